@@ -134,6 +134,9 @@ impl WriteExt for Writer<&mut BytesMut> {
 
 impl<W: WriteExt + ?Sized> WriteExt for IoBufWriter<W> {
     fn reserve_with(&mut self, additional: usize) -> io::Result<&mut [MaybeUninit<u8>]> {
+        // bytes written so far may still sit in the BufWriter; they must reach the inner writer
+        // before anything is appended to it directly
+        io::Write::flush(self)?;
         self.get_mut().reserve_with(additional)
     }
 
